@@ -807,6 +807,84 @@ def form_of_dir(tree, d):
     return None
 
 
+# ---------------------------------------------------------------------------
+# per-member fields of the container, as other tools write them.  None of them is part of the tree: the
+# archive has to look like the extracted tree whatever they say.  A member gets at most ONE deviating
+# field (key 'variant' = its class), so that a difference can be put down to it.
+#   date            : the 16+16 bit DOS stamp (six fields as zipfile reports them); need not be a calendar date
+#   create_system   : 0 DOS, 3 unix, 10 NTFS, 19 OS X ...
+#   attr            : external attributes of a regular file (32 bit, unix mode in the upper half)
+#   extra           : extra field records (latin-1 str), local and central
+#   flags           : general purpose bits OR-ed in (raw writer only: zipfile resets them)
+#   comment         : member comment (central record)
+#   method          : stored | deflate | bzip2 | lzma
+#   internal_attr, versions (made-by low byte, needed-to-extract)
+# ---------------------------------------------------------------------------
+import struct as _struct
+
+DATE_VARIANTS = [
+    (1980, 1, 1, 0, 0, 0), (2107, 12, 31, 23, 59, 58), (1980, 0, 0, 0, 0, 0), (2021, 0, 5, 1, 2, 4), (2021, 3, 0, 1, 2, 4),
+    (2021, 13, 1, 0, 0, 0), (2021, 15, 31, 31, 63, 62), (2021, 2, 30, 12, 0, 0), (2021, 4, 31, 12, 0, 0), (2100, 2, 29, 1, 1, 2),
+    (2021, 6, 1, 24, 0, 0), (2021, 6, 1, 31, 59, 58), (2021, 6, 1, 12, 60, 0), (2021, 6, 1, 12, 63, 0), (2021, 6, 1, 12, 30, 60),
+    (2021, 6, 1, 12, 30, 62), (2038, 1, 19, 3, 14, 8), (2038, 1, 19, 3, 14, 6), (1999, 12, 31, 23, 59, 58), (2021, 3, 28, 2, 30, 0),
+]
+_UT = lambda t: _struct.pack("<HHBI", 0x5455, 5, 1, t).decode("latin-1")
+EXTRA_VARIANTS = [
+    _UT(1614834368), _UT(0), _UT(0x7FFFFFFF), _UT(0xFFFFFFFF),
+    _struct.pack("<HHBBIBI", 0x7875, 11, 1, 4, 1000, 4, 1000).decode("latin-1"),
+    _struct.pack("<HHQQ", 0x0001, 16, 5, 5).decode("latin-1"),                     # zip64 record nobody needs
+    _struct.pack("<HHIHHQQQ", 0x000A, 32, 0, 1, 24, 0, 0, 0).decode("latin-1"),   # NTFS times, all zero
+    _struct.pack("<HH", 0xCAFE, 0).decode("latin-1"),                              # jar marker
+    _struct.pack("<HH", 0x9999, 6).decode("latin-1") + "opaque",                   # unknown record
+    _UT(1614834368) + _struct.pack("<HH", 0xA11E, 3).decode("latin-1") + "pad",    # two records (zipalign-like padding)
+]
+ATTR_VARIANTS = [0, 0x20, 0x01 | 0x02 | 0x20, 0o644 << 16, 0o000 << 16, (0o100000 | 0o000) << 16, (0o100000 | 0o4755) << 16,
+                 (0o100000 | 0o1644) << 16, ((0o100000 | 0o600) << 16) | 0x21, (0o100000 | 0o777) << 16, 0o7777 << 16]
+FIELD_VARIANTS = (
+    [("date_time", {"date": list(d)}) for d in DATE_VARIANTS] +
+    [("create_system", {"create_system": c}) for c in (0, 10, 19, 11, 255)] +
+    [("external_attr", {"attr": a}) for a in ATTR_VARIANTS] +
+    [("create_system", {"create_system": 0, "attr": 0x20}), ("create_system", {"create_system": 10, "attr": 0x20})] +
+    [("extra", {"extra": x}) for x in EXTRA_VARIANTS] +
+    [("flag_bits", {"flags": f}) for f in (0x02, 0x04, 0x06)] +
+    [("comment", {"comment": c}) for c in ("a member comment", "caf\xe9 \x00\xff", "x" * 300)] +
+    [("compress_type", {"method": m}) for m in ("stored", "deflate", "bzip2", "lzma", "bzip2", "lzma")] +
+    [("internal_attr", {"internal_attr": 1}), ("versions", {"versions": [63, 63]}), ("versions", {"versions": [10, 10]}),
+     ("versions", {"versions": [0, 0]})]
+)
+
+
+def with_member_fields(members, rng, share=0.6):
+    """deal the field variants out over the members (in rotation, starting somewhere else in every archive;
+    date stamps come round most often).  Links keep their attributes (they ARE the link), directories and
+    links take only fields that exist for them; stored archives and members pinned to STORED keep their method."""
+    dates = [v for v in FIELD_VARIANTS if v[0] == "date_time"]
+    others = [v for v in FIELD_VARIANTS if v[0] != "date_time"]
+    kd, ko = rng.randrange(len(dates)), rng.randrange(len(others))
+    out = []
+    n = 0
+    for m in members:
+        m = dict(m)
+        if rng.random() < share:
+            if n % 2 == 0:
+                cls, spec = dates[kd % len(dates)]
+                kd += 1
+            else:
+                cls, spec = others[ko % len(others)]
+                ko += 1
+            n += 1
+            ok = True
+            if m["kind"] != "file" and cls in ("external_attr", "create_system", "compress_type", "flag_bits"):
+                ok = False
+            if cls == "compress_type" and (m["raw"].endswith(".zip") or len(m.get("data", "")) > 60000):
+                ok = False
+            if ok:
+                m.update(spec)
+                m["variant"] = cls
+        out.append(m)
+    return out
+
+
 def containers(rng, n):
     """how the archive file comes into being: who writes it and what happens to it afterwards.
     The list is walked in order (rotated per run), its first four already cover every writer, a
